@@ -260,6 +260,104 @@ def make_wellposed(n, d):
                       allow_domain="degenerate data (singular initial scale matrix) is outside the claim")
 
 
+def make_dof_decision(n, d):
+    """The nu update decides between a finite root and nu = inf from the sign of the score at a large probe value. The score is a
+    function of the weights w_i = (nu + d) / (nu + delta_i); if, in double precision, every such weight equals exactly 1 for every
+    data set, the decision cannot depend on the data (and the fit can never estimate the degrees of freedom). Decided bit-precisely
+    (QF_FP) on the real code: the weights handed to the score at its first evaluation, for arbitrary Mahalanobis distances in
+    [0, 1e4], must be able to differ from 1."""
+    from vf.engine.fp import SymFP, FP, fpval
+
+    class Stop(Exception):
+        pass
+
+    def harness(ctx: PathCtx):
+        x = (np.arange(n * d, dtype=float).reshape(n, d) * 0.37 + np.arange(n).reshape(n, 1) ** 2 * 0.11) % 1.0
+        deltas = []
+        for i in range(n):
+            t = ctx.register(f"delta{i}", z3.FP(f"delta{i}", FP))
+            ctx.assume(z3.And(z3.fpGEQ(t, fpval(0.0)), z3.fpLEQ(t, fpval(1e4))))
+            deltas.append(SymFP(t))
+        seen = {}
+
+        def sum_model(a, axis=None, **kw):
+            if axis == 0 and "delta" not in seen:
+                seen["delta"] = True
+                return sarr(deltas)  # the Mahalanobis distances: arbitrary doubles in [0, 1e4]
+            return np.sum(a, axis=axis, **kw) if axis is not None else np.sum(a, **kw)
+
+        def log_model(v):
+            if isinstance(v, np.ndarray) and v.dtype == object and "w" not in seen:
+                seen["w"] = [e for e in v.reshape(-1)]
+                raise Stop()
+            return np.log(v)
+        spec = types.SimpleNamespace(psi=lambda v: 0.0)
+        proxy = NpProxy(overrides={"sum": sum_model, "log": log_model})
+        try:
+            with patched(student_mod, np=proxy, special=spec):
+                fit_mvstud(x.copy(), tolerance=1e-6, max_iter=1)
+        except Stop:
+            pass
+        if "w" not in seen:
+            ctx.fail("score-is-evaluated-on-the-weights", "the dof update never evaluated log(w) on the weights")
+            return None
+        ctx.ok("score-is-evaluated-on-the-weights")
+        w = seen["w"]
+        ctx.check("one-weight-per-point", z3.BoolVal(len(w) == n))
+        label = "dof-decision-can-depend-on-the-data(some weight != 1 for some distances in [0,1e4])"
+        from vf.engine.core import CheckResult
+        one = fpval(1.0)
+        verdicts = []
+        for i, e in enumerate(w):
+            wz = SymFP.lift(e).z
+            verdict = "unknown"
+            # (a) witness: substitute concrete distances and evaluate the real expression in binary64
+            for val in (0.0, 0.5, 3.0, 100.0, 1e4):
+                ev = z3.simplify(z3.substitute(wz, *[(dl.z, fpval(val)) for dl in deltas]))
+                if z3.is_fp_value(ev) and z3.is_false(z3.simplify(z3.fpEQ(ev, one))):
+                    verdict = "differs"
+                    break
+            # (b) proof that the weight is the constant 1: numerator and denominator are the same double for every distance
+            if verdict == "unknown" and z3.is_app(wz) and wz.decl().kind() == z3.Z3_OP_FPA_DIV:
+                rm, a, b = wz.children()
+                if ctx._query(z3.Not(z3.fpEQ(a, b)))[0] == "unsat":
+                    q = z3.simplify(z3.fpDiv(rm, a, a))
+                    if z3.is_true(z3.simplify(z3.fpEQ(q, one))):
+                        verdict = "always-one"
+            if verdict == "unknown":
+                r_, _ = ctx._query(z3.Not(z3.fpEQ(wz, one)))
+                verdict = {"sat": "differs", "unsat": "always-one"}.get(r_, "unknown")
+            verdicts.append(verdict)
+        if any(v_ == "differs" for v_ in verdicts):
+            ctx.results.append(CheckResult(label, "holds", None, verdicts, ctx.path_id))
+        elif all(v_ == "always-one" for v_ in verdicts):
+            ctx.results.append(CheckResult(label, "violated", ctx.witness() or {}, verdicts, ctx.path_id))
+        else:
+            ctx.results.append(CheckResult(label, "unknown", None, verdicts, ctx.path_id))
+        return None
+
+    def replay(m, label, v):
+        """real fit on large heavy-tailed samples: the degrees of freedom must be finite at least once"""
+        rng = np.random.RandomState(0)
+        rows = []
+        for nu_true in (1.0, 2.0, 5.0):
+            for dd in (1, 2, 4):
+                g = rng.randn(3000, dd) / np.sqrt(rng.chisquare(nu_true, size=(3000, 1)) / nu_true)
+                import io, contextlib
+                with contextlib.redirect_stdout(io.StringIO()):
+                    _, _, nu_hat = fit_mvstud(g * 0.3 + 0.5)
+                rows.append((nu_true, dd, float(nu_hat)))
+        never = all(math.isinf(r[2]) for r in rows)
+        return {"reproduced": bool(never), "signature": "fit_mvstud:dof-never-estimated", "payload": {"(true nu, d, fitted nu)": rows},
+                "what": "fit_mvstud on 3000 multivariate-t samples with nu in {1,2,5}, d in {1,2,4}: fitted nu = " + str([r[2] for r in rows]) +
+                        " - the score is probed where every weight (nu+d)/(nu+delta) rounds to exactly 1, so it is 0.0 for any data and nu = inf is always returned"}
+
+    return Obligation(f"dof-decision-n{n}-d{d}", harness, replay=replay, encodes=[fit_mvstud],
+                      bounds=f"n={n} points, d={d}; Mahalanobis distances arbitrary doubles in [0, 1e4]; first evaluation of the score (the finite-vs-infinite decision)",
+                      stubs=["np.sum(.., 0) of the first call -> symbolic distances (arbitrary doubles in [0,1e4])", "special.psi -> constant (not used by the obligation)"],
+                      theory="QF_FP", timeout_ms=120000)
+
+
 def make_fallback():
     """ModeStatistics.from_particles / from_global: a non-finite dof from the fit is replaced by the *configured* fallback."""
     import tempest.modes as modes_mod
@@ -312,7 +410,7 @@ def make_fallback():
 
 
 def obligations(tier):
-    obs = [make_fallback(), make_init_equivariance(3, 1), make_init_equivariance(2, 2), make_equivariance(3, 1, "affine"), make_wellposed(3, 1), make_equivariance(2, 2, "permute"), make_equivariance(2, 2, "affine")]
+    obs = [make_fallback(), make_dof_decision(4, 1), make_dof_decision(4, 2), make_init_equivariance(3, 1), make_init_equivariance(2, 2), make_equivariance(3, 1, "affine"), make_wellposed(3, 1), make_equivariance(2, 2, "permute"), make_equivariance(2, 2, "affine")]
     if tier == "thorough":
         # (n=4 one-iteration obligations - affine d=1, permutation d=2, well-posedness d=1 - exhaust the 2400 s budget or end in nlsat
         #  `unknown`: not scheduled; the initialisation obligations below cover n=4 / n=3,d=2)
